@@ -180,6 +180,7 @@ def run_one(case, tally):
     try:
         h.start()
         h.wait_event(lambda e: e[2] == "app" and e[3] == "send.", 3.0)
+        h.wait_ready()
         results = []
         for path in case["paths"]:
             s = h.connect()
